@@ -4,10 +4,10 @@
 # Writes /verif/seeded/<id>/matrix.txt: one line per check: <prop> <exit code> <violation classes>.
 set -u
 SEEDS=("$@"); [ ${#SEEDS[@]} -eq 0 ] && SEEDS=($(ls /verif/seeded))
-WORK=/tmp/matrix; rm -rf $WORK; mkdir -p $WORK
+WORK=/tmp/matrix.$$; rm -rf $WORK; mkdir -p $WORK
 rsync -a --exclude .git --exclude replays --exclude evidence /verif/ $WORK/verif/
 mkdir -p $WORK/verif/evidence $WORK/verif/replays
-PROPS=$(python3 -c "import json;print(' '.join(c['property_id'] for c in json.load(open('/verif/MANIFEST.json'))['checks']))")
+PROPS=${MATRIX_PROPS:-$(python3 -c "import json;print(' '.join(c['property_id'] for c in json.load(open('/verif/MANIFEST.json'))['checks']))")}
 for S in "${SEEDS[@]}"; do
   D=/verif/seeded/$S; P=$D/patch.diff; [ -f $D/patch.rebased.diff ] && P=$D/patch.rebased.diff
   WT=$WORK/wt-$S
